@@ -51,6 +51,8 @@ def render(v, sort=True):
         return "R( " + render(v[1], sort) + " )"
     if k == "cycle":
         return "#cycle"
+    if k in ("u", "w"):           # typed slices of application struct VALUES (harness only): u = []UserObj, w = []Holder{A: n, B: X<n>}
+        return k + "( " + "".join(f"X{n} " for n in v[1]) + ")"
     if k in ("H", "h", "G"):      # application structs holding a pointer field (harness only)
         return f"{k}( {render(v[1], sort)} {render(v[2], sort)} )"
     raise ValueError(k)
@@ -142,7 +144,10 @@ ADV_CHUNKS = [
 # (no backslash, no non-ASCII: nothing that would send them down an escaping path for another reason)
 EDGE_STRINGS = [bytes([b]) for b in range(256)] + [
     b"ab\ncd", b"\n", b"x\n.", b"hello world\n", b"\nP1\n", b"a\rb", b"I1\n.", b"\n\n", b"q" * 254 + b"\n", b"\x0e\x1b\x1f", b"e" * 255,
-    b"\x01\x02\x03\x04\x05\x06\x0e\x0f\x10\x11\x12\x13\x14\x15\x16\x17\x18\x19\x1a\x1b\x1c\x1d\x1e\x1f"]
+    b"\x01\x02\x03\x04\x05\x06\x0e\x0f\x10\x11\x12\x13\x14\x15\x16\x17\x18\x19\x1a\x1b\x1c\x1d\x1e\x1f",
+    # valid text ending in a truncated multi-byte sequence; U+FFFD itself next to invalid bytes; format verbs
+    b"abc \xc3", "日本語".encode()[:8], b"\xf0\x9f\x98", b"ok\xe2\x82", b"\xc3\xa9\xc3", b"\xef\xbf\xbd\xff", b"\xff\xef\xbf\xbd",
+    b"%d%s%", b"%!v(MISSING)", "\u20ac\U0001f600".encode()]
 
 
 def edge_string_values():
